@@ -205,9 +205,7 @@ package dispatcher
 
 // ---- C06: batched settlement applies to every lease exactly the action decided for it (own delay, own reason) ----
 
-//@ iface queue.LeaseBatchStore.AckBatch(self, leaseIDs) (res, err)
-//@ iface queue.LeaseBatchStore.NackBatch(self, leaseIDs, delay) (res, err)
-//@ iface queue.LeaseBatchStore.MarkDeadBatch(self, leaseIDs, reason) (res, err)
+// (interface contracts of queue.LeaseBatchStore: /verif/specs/queue_store.spec)
 //@ func (*PushDispatcher).applyLeaseAction
 //@   trusted
 //@ func (*PushDispatcher).logBatchConflicts
